@@ -8,5 +8,6 @@ CONSTANTS
   DropFinal = FALSE
   LossyUtf8 = TRUE
   EncodeLFs = 1
+  EofSkipsDecode = FALSE
 SPECIFICATION Spec
 CHECK_DEADLOCK FALSE
